@@ -15,7 +15,7 @@ LEVEL = "proof"
 ENGINES = ["E1 nir2smt"]
 TECHNIQUE = "SMT equivalence (z3 QF_BV) between the Amaranth netlist IR of the real helper and an independent bit-vector specification, complete per width; counterexamples replayed on amaranth.sim"
 BOUNDS = {
-    "quick": "widths 1..8 for popcount/clz/ctz/lowest-set-bit/mask_* helpers and cyclic_mask; mod_incr/mod_add for mod 1..9, max_incr 0..3; "
+    "quick": "widths 1..8 for popcount/clz/ctz/lowest-set-bit/mask_* helpers and cyclic_mask; mod_incr/mod_add for mod 1..9, max_incr 0..3 plus three cases with max_incr > mod (several wraps); "
              "sum/or/and/min/max_value on 2..4 operands of widths 1..3; mux/switch_value with 1..2-bit selector",
     "thorough": "widths 1..16; mod 1..17, max_incr 0..5; reductions on 2..5 operands of widths 1..4",
 }
@@ -33,6 +33,7 @@ def configs(tier, seed):
     mods = range(1, 10) if tier == "quick" else range(1, 18)
     mis = range(0, 4) if tier == "quick" else range(0, 6)
     out += [dict(group="mod", mod=m, max_incr=mi) for m in mods for mi in mis]
+    out += [dict(group="mod", mod=3, max_incr=5), dict(group="mod", mod=5, max_incr=7), dict(group="mod", mod=6, max_incr=13)]  # several wraps
     nops = (2, 3, 4) if tier == "quick" else (2, 3, 4, 5)
     ws = (1, 2, 3) if tier == "quick" else (1, 2, 3, 4)
     shapes = set()
